@@ -160,6 +160,25 @@ static void window_edge_cases(u8* data)
     }
 }
 
+/* the window edge reached by a SECOND lookup: position P has a short (4-byte) match nearby, and the position right after it has a long match at distance
+ * 65536 + delta (delta -2..2).  Parsers that look one position ahead with another table or another candidate list (lz4mid's 8-byte table at ip+1, the
+ * hash-chain parser's wider-match search, the optimal parser's next-position search) apply a distance test of their own there.  A zero run shortly
+ * before P ends the skipping of the accelerating parsers so that P itself is examined; the byte before P differs from the byte before the old copy. */
+static void window_edge_second_lookup_cases(u8* data, int reps)
+{
+    int r, delta, e; static const int ents[] = {E_DEFAULT, E_HC, E_HC, E_HC, E_HC, E_HC, E_HC_FAVOR, E_HC_EXTSTATE}; static const int params[] = {1, 1, 2, 3, 9, 10, 12, 2};
+    for (r = 0; r < reps; r++) for (delta = -2; delta <= 2; delta++) {
+        size_t K = 20 + rndn(400), Q = K + 100 + rndn(3000), sl = 12 + rndn(60), shortl = 4 + rndn(3);
+        size_t P = K + (size_t)(65536 + delta), n = P + sl + 30 + rndn(400), i;
+        for (i = 0; i < n; i++) data[i] = (u8)rnd();
+        memcpy(data + Q, data + K, shortl); data[Q + shortl] = (u8)(data[K + shortl] ^ 0x55);   /* the nearer, short copy of the head of S */
+        memset(data + P - 500, 0, 400);
+        memcpy(data + P, data + K, sl); data[P + sl] = (u8)(data[K + sl] ^ 0x55);
+        data[P - 1] = (u8)(data[K - 1] ^ 0x55);
+        for (e = 0; e < 8; e++) do_case(data, n, ents[e], params[e], LZ4_compressBound((int)n), D_FARMATCH, 1);
+    }
+}
+
 /* input sizes around LZ4_64Klimit (64 KB + 11), where the fast compressor switches from the 16-bit table (no distance test: every distance is assumed
  * <= 65535) to the 32-bit one: the tail of the input repeats its head at distance EXACTLY 65536, incompressible in between so that position 65536 is examined */
 static void size64k_limit_cases(u8* data)
@@ -219,6 +238,7 @@ int main(int argc, char** argv)
         int ncases = thorough ? SH(40000) : 2500;
         if (ONCE) exhaustive_ab(thorough ? 16 : 11, ents, !strcmp(mode, "c06") ? 3 : 4);
         window_edge_cases(data); size64k_limit_cases(data);
+        window_edge_second_lookup_cases(data, thorough ? SH(80) : 8);
         run_window_edge_cases(data, thorough ? SH(400) : 40);
         tiny_alphabet_sweep(data, thorough ? SH(40000) : 3000);
         for (i = 0; i < ncases; i++) {
